@@ -43,6 +43,9 @@ func vMergeCfg(prefix, idBase string, nDocs int, second bool, focus string) gCfg
 		return gCfg{prefix: prefix, idBase: idBase, nDocs: nDocs, wide: -1, maxAP: 1, symTyp: vParam("symTyp", 1) == 1, fixAP: vParam("fixAP", 0) == 1, storeAll: vParam("storeAll", 0) == 1, fields: fields}
 	}
 	fields = []gField{{name: "f", terms: []string{"", "a"}, tv: true, maxLocs: 1, dv: true}}
+	if vParam("lite", 0) == 1 {
+		fields[0].terms = []string{""}
+	}
 	if second {
 		fields = append(fields, gField{name: "g", terms: []string{"a"}, dv: true})
 	}
